@@ -1,0 +1,33 @@
+//go:build verif
+
+/*
+/*
+ Licensed to the Apache Software Foundation (ASF) under one
+ or more contributor license agreements.  See the NOTICE file
+ distributed with this work for additional information
+ regarding copyright ownership.  The ASF licenses this file
+ to you under the Apache License, Version 2.0 (the
+ "License"); you may not use this file except in compliance
+ with the License.  You may obtain a copy of the License at
+
+     http://www.apache.org/licenses/LICENSE-2.0
+
+ Unless required by applicable law or agreed to in writing, software
+ distributed under the License is distributed on an "AS IS" BASIS,
+ WITHOUT WARRANTIES OR CONDITIONS OF ANY KIND, either express or implied.
+ See the License for the specific language governing permissions and
+*/
+
+package resources
+
+// Verification hooks (build tag "verif" only): export the unexported quantity calculators.
+
+func VerifAddVal(a, b Quantity) Quantity                    { return addVal(a, b) }
+func VerifSubVal(a, b Quantity) Quantity                    { return subVal(a, b) }
+func VerifMulVal(a, b Quantity) Quantity                    { return mulVal(a, b) }
+func VerifMulValRatio(a Quantity, r float64) Quantity       { return mulValRatio(a, r) }
+func VerifParse(value string, milli bool) (Quantity, error) { return parse(value, milli) }
+func VerifGetFairShare(allocated, guaranteed, fair *Resource) float64 {
+	return getFairShare(allocated, guaranteed, fair)
+}
+func VerifCompareShares(l, r []float64) int { return compareShares(l, r) }
